@@ -356,7 +356,12 @@ def run(C, R):
                 if live:
                     slot = E.read(type('SV', (), {'store': path.store})(), (('P', 'self'), 'wait_node', 'data', 'value'))
                     own_takes = [e for e in path.events if e['k'] == 'take' and e['loc'] == (('P', 'self'), 'wait_node', 'data', 'value')]
-                    if slot == NONE and own_takes and path.ret == own_takes[-1]['old']:
+                    old_v = own_takes[-1]['old'] if own_takes else None
+                    same = old_v is not None and (
+                        path.ret == old_v or
+                        (path.ret[0] == 'agg' and path.ret[2] == 'Some' and path.ret[3][0][1] == E.project(old_v, (('dc', 'Some'), '0'))) or
+                        (path.ret == NONE and E.variant_known(path.facts, old_v) == ('eq', 'None')))
+                    if slot == NONE and own_takes and same:
                         R.ok('C08.R5', '%s|live future: value slot emptied into the return value|%s' % (
                             fn['path'], path_cond(E, path)))
                     else:
